@@ -140,9 +140,10 @@ def parseReq (args : List Str) : Option Parsed :=
 
 /-! ### specification judgements -/
 
-def isPre (p : Str) : Bool := (str "timeout:").isPrefixOf p
 
-def replies (log : List Eff) : List Str :=
+
+def replies (log : List Eff) : List Str := Req.responses log
+def repliesOld (log : List Eff) : List Str :=
   log.filterMap fun e => match e with
     | .pub s p => if s = replySubj ∧ !isPre p then some p else none
     | _ => none
@@ -238,6 +239,8 @@ def conformant (p : Parsed) (subj payload : Str) : Option String :=
               | _, _ => some "error-without-string-code-and-message")
           | _, some rs => (match rs.get? "rid" with | some (.str rid) => if isValidRIDB rid then none else some "invalid-rid" | _ => some "resource-without-rid")
           | _, _ => none
+  else if (str "conn.").isPrefixOf subj ∧ !isValidPartB r.cid then none
+  else if (str "conn.").isPrefixOf subj ∧ !isValidPartB r.cid then none
   else if !validSubj subj then some "invalid-subject"
   else
     let toks := splitDots subj
@@ -259,6 +262,7 @@ def conformant (p : Parsed) (subj payload : Str) : Option String :=
           (if payload.isEmpty then none else some "payload-on-payloadless-event")
         else if payload.isEmpty ∨ (Json.parse payload).isSome then none else some "custom-event-payload-not-json"
       else if ev = str "conn" then
+        if !isValidPartB r.cid then none else   -- only protocol-conformant connection ids are in scope
         (match rest with
          | [_, t] => if t = str "token" then
              (match (Json.parse payload).bind (·.get? "token") with | some _ => none | none => some "token-event-without-token")
@@ -277,6 +281,12 @@ def judge07 (p : Parsed) (log : List Eff) : String :=
 
 /-- C08: apply → publish → listeners, and nothing after a failed/empty apply -/
 def judge08 (p : Parsed) (log : List Eff) : String :=
+  -- event values that cannot be marshalled are outside the property (nothing is published, see DESIGN.md)
+  if p.script.any (fun a => match a with
+      | .change props => props.any (fun kv => !kv.2.ok)
+      | .add v _ | .create v => !v.ok
+      | .custom _ (some v) => !v.ok
+      | _ => false) then "-" else
   let n := p.cfg.listeners
   let applyOf (k : String) : Apply := match k with
     | "change" => p.cfg.applyChange | "add" => p.cfg.applyAdd | "remove" => p.cfg.applyRemove
@@ -313,7 +323,7 @@ def judge08 (p : Parsed) (log : List Eff) : String :=
            let want := (List.range n).map (fun i => Eff.listener i name)
            if ls ≠ want then some ("listeners-not-called-in-order-after-publish:" ++ nm)
            else go fuel (rest.drop n) none)
-    | fuel + 1, .listener _ nm :: _ => some ("listener-without-publish:" ++ Str.show nm)
+    | _ + 1, .listener _ nm :: _ => some ("listener-without-publish:" ++ Str.show nm)
     | fuel + 1, .seen _ :: rest => go fuel rest none
   match go (log.length + 1) log none with
   | some why => "?viol:" ++ why
